@@ -2723,8 +2723,10 @@ class MainProvider(ResolverMixin, BaseProvider):
 
         objs_list = context_data['data']
 
+        # MaxObjectCount=0 is valid and means: return no objects (used to
+        # restart the operation timeout). Only None selects the default.
         max_obj_cnt = MaxObjectCount
-        if not max_obj_cnt:
+        if max_obj_cnt is None:
             max_obj_cnt = DEFAULT_MAX_OBJECT_COUNT
 
         if len(objs_list) <= max_obj_cnt:
